@@ -211,11 +211,28 @@ func dnsScenarioC10(w *dnsWorld) {
 			ops = append(ops, op)
 			w.ops = append(w.ops, op)
 		}
+		// some clients ask again shortly afterwards (lookups straddling a deadline while
+		// an asynchronous update of the first lookup may still be queued)
+		again := map[*dnsOp]*dnsOp{}
+		pause := map[*dnsOp]time.Duration{}
+		for _, op := range ops {
+			if T.Chance(1, 3) {
+				op2 := &dnsOp{cli: op.cli, idx: len(w.ops), id: uint16(100 + len(w.ops)), name: op.name, qtype: op.qtype, qname: op.qname}
+				w.ops = append(w.ops, op2)
+				again[op] = op2
+				pause[op] = []time.Duration{time.Second, 3 * time.Second, 5 * time.Second}[T.Choose(3)]
+			}
+		}
 		done := 0
 		for i, op := range ops {
 			op := op
 			verifsim.Go(fmt.Sprintf("client%d", i), func() {
 				w.doOp(op, 10*time.Second)
+				if op2 := again[op]; op2 != nil {
+					time.Sleep(pause[op])
+					verifsim.YieldB("client-woke")
+					w.doOp(op2, 10*time.Second)
+				}
 				done++
 			})
 		}
@@ -223,6 +240,12 @@ func dnsScenarioC10(w *dnsWorld) {
 			break
 		}
 		w.c10Quiescent(fmt.Sprintf("after round %d", r))
+		// background refreshes spawned by the round must be over before a reload
+		for i := 0; i < 4 && (w.pendingWork() || w.fwdInFlight() > 0) && !s.Failed(); i++ {
+			w.settle(func() bool { return !w.pendingWork() && w.fwdInFlight() == 0 }, 6)
+			w.c10Quiescent(fmt.Sprintf("after round %d", r))
+		}
+		reloadOK := !w.pendingWork() && w.fwdInFlight() == 0
 		switch T.Pick(12, 2, 1) {
 		case 1:
 			// swap the request rules (a name may become rejected, or stop being rejected)
@@ -230,6 +253,9 @@ func dnsScenarioC10(w *dnsWorld) {
 			w.env("reload", func() { w.reloadReuse(rs) })
 			s.RunUntil(func() bool { return w.envTasks == 0 }, 5)
 		case 2:
+			if !reloadOK {
+				break
+			}
 			w.env("reload", func() { w.c10ReloadRestore() })
 			s.RunUntil(func() bool { return w.envTasks == 0 }, 5)
 		}
